@@ -20,7 +20,7 @@ Inductive oneshot := OSPending (ws : list N) | OSFired (r : wres).
    command Deferred that was chained at the acknowledgement (leaves None behind); the same for a stream,
    where nobody observes the command Deferred *)
 Inductive cbitem := CbWaiter (w : N) | CbChain (w : N) | CbChainSilent.
-Inductive cmdrec := CmdC (o w : N) (ok : bool) | CmdS (o w : N) (ok : bool).
+Inductive cmdrec := CmdC (o w : N) (ok : bool) | CmdS (o w : N) (ok : bool) | CmdB (w : N).
 
 Record xstate := { base : mstate;
                    cls : list (N * list N); sls : list (N * list N);     (* object -> its listeners, in order *)
@@ -28,7 +28,8 @@ Record xstate := { base : mstate;
                    wbs : list (N * oneshot); wcs : list (N * oneshot);   (* Circuit._when_built / _when_closed *)
                    cclosing : list (N * list cbitem);                    (* Circuit._closing_deferred when set *)
                    sclosing : list (N * list cbitem);                    (* Stream._closing_deferred when set *)
-                   cmds : list cmdrec }.                                 (* submitted close commands not yet answered *)
+                   cmds : list cmdrec }.                                 (* submitted commands not yet answered: CLOSECIRCUIT,
+                                                                            CLOSESTREAM, EXTENDCIRCUIT (build_circuit) *)
 
 Definition xinit (rts : list (N * N)) : xstate :=
   {| base := init rts; cls := []; sls := []; gcl := []; gsl := []; wbs := []; wcs := []; cclosing := []; sclosing := [];
@@ -301,6 +302,36 @@ Definition x_op (s : xstate) (o : op) : option (xstate * list nev) :=
                                           end
                                else sclosing s;
                    cmds := q |}, [])
+      | CmdB _ :: _ => None        (* a close acknowledgement cannot answer an EXTENDCIRCUIT *)
+      end
+  | OBuild rs w =>
+      (* TorState.build_circuit: queue_command("EXTENDCIRCUIT 0 fp,..").addCallback(_find_circuit_after_extend) *)
+      Some ({| base := base s; cls := cls s; sls := sls s; gcl := gcl s; gsl := gsl s; wbs := wbs s; wcs := wcs s;
+               cclosing := cclosing s; sclosing := sclosing s; cmds := cmds s ++ [CmdB w] |},
+            NCmd 2 (N.of_nat (length rs)) :: map (NCmd 3) rs)
+  | OExtended id =>
+      (* _find_circuit_after_extend: _maybe_create_circuit(int(id)); circ.update([str(id), 'EXTENDED']); return circ
+         -- the same two calls _circuit_update makes for the line "id EXTENDED"; then the caller's callback *)
+      match cmds s with
+      | CmdB w :: q =>
+          match x_circ s id CExtended [] [] with
+          | Some (s1, es) =>
+              Some ({| base := base s1; cls := cls s1; sls := sls s1; gcl := gcl s1; gsl := gsl s1; wbs := wbs s1; wcs := wcs s1;
+                       cclosing := cclosing s1; sclosing := sclosing s1; cmds := q |},
+                    es ++ [NDone w (WOkC (match kfind fst id (circuits (base s)) with
+                                          | Some p => snd p
+                                          | None => N.of_nat (length (cheap (base s)))
+                                          end))])
+          | None => None
+          end
+      | _ => None
+      end
+  | OBuildErr =>
+      match cmds s with
+      | CmdB w :: q =>
+          Some ({| base := base s; cls := cls s; sls := sls s; gcl := gcl s; gsl := gsl s; wbs := wbs s; wcs := wcs s;
+                   cclosing := cclosing s; sclosing := sclosing s; cmds := q |}, [NDone w (WFail 4 0 0)])
+      | _ => None
       end
   end.
 
